@@ -240,7 +240,7 @@ SliceElem ==
 PtrStart ==
   /\ At("ptr", "start")
   /\ LET f == Top  n == f.node
-         absent == IF Mode = "parse" THEN ParseAbsent(f.in) ELSE dest[f.dp] = 0
+         absent == IF Mode = "parse" THEN PtrAbsent(f.in, f.ip, f.fe) ELSE dest[f.dp] = 0
          d1 == IF dest[f.dp] = 0 THEN (f.dp :> 1) @@ ZeroDest(Elem(n), Append(f.dp, "*")) @@ dest ELSE dest
          child == Frame(Elem(n), f.in, f.ip, Append(f.dp, "*"), IF SwPtrFreshCtx THEN Len(ctxs) + 1 ELSE f.ctx, f.fe)
      IN Commit(
